@@ -422,9 +422,8 @@ def extract_c2():
     inc = None
     for mi in re.finditer(r"(?<!let mut )\b(ofs\s*[-+*|^]?=\s*[^;=][^;]*);", tr):
         inc = mi
-    if not m or not inc or m.group(1).strip() == "()":
-        return None
-    entry = m.group(1).strip().replace("#b1", "b1").replace("#o1", "o1").replace("#e1", "(e0 as R)")
+    have_table = bool(m and inc and m.group(1).strip() != "()")
+    entry = m.group(1).strip().replace("#b1", "b1").replace("#o1", "o1").replace("#e1", "(e0 as R)") if have_table else None
     idx = []
     for fn in ("src/feature/as_str_fn.rs", "src/feature/range_fn.rs"):
         try:
@@ -439,7 +438,9 @@ def extract_c2():
             if not mm:
                 continue
             expr = mm.group(1)
-            holes = bool(re.search(r"\b[tr]\.1\b", expr))
+            holes = bool(re.search(r"\b[tr]\.[01]\b", expr))
+            if holes and not have_table:
+                continue   # the range-table representation was refactored: with-holes fragments skipped
             idx.append((fn, ln, expr, holes))
     # table-mode parsing of a gapless enum: position in the name table -> discriminant
     disc = []
@@ -456,7 +457,8 @@ def extract_c2():
                 disc.append((fn, ln, mm.group(1)))
     if not idx and not disc:
         return None
-    return {"entry": entry, "inc": inc.group(1).strip(), "idx": idx, "disc": disc}
+    return {"entry": entry or "b1", "inc": inc.group(1).strip() if have_table else "ofs += e0 - b0 + 1", "idx": idx, "disc": disc,
+            "have_table": have_table}
 
 
 def engine_c2(rep, files, M, harness_timeout, reprs=None):
@@ -531,6 +533,8 @@ def engine_c2(rep, files, M, harness_timeout, reprs=None):
         rep.infra_errors.append("cargo kani (Engine C2) produced no result file; see " + os.path.join(base, "kani_c2.log"))
         return
     results = K.classify(data, out)
+    if not ex.get("have_table"):
+        rep.skipped.append({"module": "engine_c2", "what": "range-table entry/offset fragments not found (representation refactored): with-holes index expressions skipped, gapless ones kept"})
     rep.bounds["engine_C2"] = {"runs": M, "reprs": [r for r in reprs if r in comp], "variants": "<= min(65534, 2^bits)",
                                "fragments": {"entry": ex["entry"], "inc": ex["inc"], "index_expressions": [t[2] for t in idx + disc]}}
     rep.stubs.append("Engine C2: table entry / offset / index expressions are text fragments of the quote! templates assembled into straight-line Rust; a counterexample layout is confirmed by really deriving an enum with that layout")
